@@ -181,6 +181,14 @@ class FileProxy(object):
     self._counter['write'] += 1
     if self._plan.get('op') == 'write' and self._plan['k'] == self._counter['write']:
       part = data[:len(data) // 2]
+      import io  # pylint: disable=g-import-not-at-top
+      if isinstance(getattr(self._real, 'file', self._real), io.FileIO):
+        # an *unbuffered* file hands the request to write(2) as it is: when only part of it fits, the call stores that
+        # part and returns the short count -- no exception; only the next call would fail
+        if part:
+          self._real.write(part)
+        self._plan = {'op': 'write', 'k': self._counter['write'] + 1}
+        return len(part)
       if part:
         self._real.write(part)
         self._real.flush()
